@@ -72,6 +72,16 @@ def rev(ctx, flavours):
         rt = pv.of_local(0)
         ok = isinstance(rt, tuple) and rt[0] == 'aggr' and rt[1] == 'adt:%s::node::Edge::Edge' % fl and [strip_payload(x) for x in rt[2]] == [('f', P1_, '1'), ('f', P1_, '0'), ('f', P1_, '2')]
         out.append(Obl('REV', q, b['span'], 'reverse(e) = Edge(e.1, e.0, e.2)', ok, 'returns ' + pretty(rt)))
+        # Edge::clone is field-wise (derived, or written out): a copy of an edge is the same edge
+        cq = '<%s::node::Edge as std::clone::Clone>::clone' % fl
+        cb = F.bodies.get(cq)
+        if cb is None:
+            out.append(Obl('REV', cq, '-', 'Edge: Clone present', False, 'anchor missing'))
+        else:
+            ct = F.prov(cb).of_local(0)
+            okc = bool(cb.get('auto_derived')) or (isinstance(ct, tuple) and ct[0] == 'aggr' and ct[1] == 'adt:%s::node::Edge::Edge' % fl and
+                                                    [deep_unwrap(x) for x in ct[2]] == [('f', P1_, '0'), ('f', P1_, '1'), ('f', P1_, '2')])
+            out.append(Obl('REV', cq, cb['span'], 'clone(e) = Edge(e.0, e.1, e.2)', okc, 'derived' if cb.get('auto_derived') else 'returns ' + pretty(ct)))
         for nm, idx in (('source', '0'), ('target', '1'), ('value', '2')):
             ab = F.bodies.get('%s::node::Edge::%s' % (fl, nm))
             if ab is None:
